@@ -9,9 +9,13 @@ import (
 
 	"github.com/zmap/zlint/v3/lint"
 
+	"strings"
+
+	"verif/certgen"
 	"verif/core"
 	"verif/der"
 	"verif/seeds"
+	"verif/xstate"
 	"verif/zl"
 )
 
@@ -271,4 +275,101 @@ func wideSerials(kind seeds.Kind, enc []byte) []byte {
 		return nil
 	}
 	return out
+}
+
+// crlEntryStates: a product space of revocation lists — the first corpus CRL that carries revoked entries is the template, and
+// its entry list is replaced by every list of ≤ maxLen entries over the entry alphabet serial {0x30, 0x50, wider than 64
+// bits} × reasonCode {absent, 0 unspecified, 1, 7 (unassigned), 8 removeFromCRL, −1} in every order (lists with repetition:
+// duplicate serials included). Each state is handed to visit with a description; states the parser rejects are skipped.
+func crlEntryStates(ctx *core.Ctx, all []seeds.Seed, maxLen int, visit func(st *xstate.State)) (n int) {
+	var tmpl *seeds.Seed
+	var root *der.Node
+	var list *der.Node
+	for i := range all {
+		if all[i].Kind != seeds.CRL {
+			continue
+		}
+		r, err := der.Parse(all[i].DER)
+		if err != nil || len(r.Children) == 0 {
+			continue
+		}
+		tbs := r.Children[0]
+		for ci, c := range tbs.Children {
+			// the revoked list: a universal SEQUENCE that follows a time field and whose children are SEQUENCEs starting with an INTEGER
+			if ci > 0 && c.Class == 0 && c.Tag == 16 && c.Constructed && len(c.Children) > 0 && (tbs.Children[ci-1].Tag == 23 || tbs.Children[ci-1].Tag == 24) {
+				e := c.Children[0]
+				if e.Constructed && len(e.Children) >= 2 && e.Children[0].Class == 0 && e.Children[0].Tag == 2 {
+					tmpl, root, list = &all[i], r, c
+				}
+			}
+		}
+		if tmpl != nil {
+			break
+		}
+	}
+	if tmpl == nil {
+		return 0
+	}
+	type atom struct {
+		desc string
+		node func() *der.Node
+	}
+	serials := []struct {
+		d string
+		b []byte
+	}{{"30", []byte{0x30}}, {"50", []byte{0x50}}, {"wide", []byte{0x01, 0, 0, 0, 0, 0, 0, 0, 0x07}}}
+	reasons := []struct {
+		d string
+		b []byte
+	}{{"-", nil}, {"r0", []byte{0}}, {"r1", []byte{1}}, {"r7", []byte{7}}, {"r8", []byte{8}}, {"r-1", []byte{0xff}}}
+	var atoms []atom
+	for _, sr := range serials {
+		for _, rs := range reasons {
+			sr, rs := sr, rs
+			atoms = append(atoms, atom{sr.d + "/" + rs.d, func() *der.Node {
+				e := der.Seq(der.Prim(0, 2, sr.b), der.Str(23, "240102030405Z"))
+				if rs.b != nil {
+					e.Children = append(e.Children, der.Seq(certgen.Ext([]int{2, 5, 29, 21}, false, der.Prim(0, 10, rs.b))))
+				}
+				return e
+			}})
+		}
+	}
+	idx := uint64(0)
+	var rec func(cur []int)
+	emit := func(cur []int) {
+		idx++
+		if !ctx.Mine(idx) {
+			return
+		}
+		var kids []*der.Node
+		var ds []string
+		for _, a := range cur {
+			kids = append(kids, atoms[a].node())
+			ds = append(ds, atoms[a].desc)
+		}
+		saved := list.Children
+		list.Children = kids
+		enc := root.Encode()
+		list.Children = saved
+		o, err := zl.Parse(seeds.CRL, enc)
+		if err != nil {
+			return
+		}
+		n++
+		visit(&xstate.State{Seed: tmpl, Path: []string{"entries=[" + strings.Join(ds, " ") + "]"}, DER: enc, Hash: core.Hash64(enc), Obj: o})
+	}
+	rec = func(cur []int) {
+		if len(cur) > 0 {
+			emit(cur)
+		}
+		if len(cur) == maxLen {
+			return
+		}
+		for a := range atoms {
+			rec(append(append([]int{}, cur...), a))
+		}
+	}
+	rec(nil)
+	return n
 }
